@@ -369,8 +369,17 @@ def run_property(pid, tier, seed, replay_file=None):
                 c.setdefault('classes', []).append('corpus')
             batch(cases, 'corpus')
         n = cfg['n_quick'] if tier == 'quick' else cfg['n_thorough']
-        cases = run_harness(cfg, 'gen', os.path.join(d, 'gen.jsonl'), seed=seed, n=n, tier=tier)
-        batch(cases, 'gen')
+        # a command that does not return stops the generator (the runaway goroutine cannot be
+        # killed); carry on with a fresh process and a derived seed until n cases exist
+        got, attempt = 0, 0
+        while got < n and attempt < 8:
+            cases = run_harness(cfg, 'gen', os.path.join(d, 'gen%d.jsonl' % attempt), seed=seed + 7919 * attempt,
+                                n=n - got, tier=tier)
+            batch(cases, 'gen%d' % attempt)
+            got += len(cases)
+            attempt += 1
+        if got == 0:
+            raise Broken('the generator produced no case')
 
     def classify():
         spec_fail, corr_fail, ood, evalerr = [], [], [], []
